@@ -452,7 +452,7 @@ def judge(run, cases, label, shards=4):
         s, f = rec["undeclared"][0]
         what += " :: step %d (%s) reads %s without depending on it" % (
             s, c["plan"][s - 1]["out"], next((p for p, ident in c["dict"] if ident == f), f))
-      if rec.get("rbw"):
+      if rec.get("rbw") and "rbw" in fails:
         s, f = rec["rbw"][0]
         what += " :: after steps %s step %d (%s) may start but reads %s" % (
             sorted(rec.get("done", [])), s, c["plan"][s - 1]["out"], f)
